@@ -147,6 +147,20 @@ async fn replay_verify_certificate() {
     let mut g = genesis.clone();
     g.signed_message = "00".repeat(32);
     assert!(verifier.verify_certificate(&g).await.is_err(), "tampered genesis accepted");
+    // a STANDARD certificate is never a chain root: whatever its previous_hash (empty, unknown, its own hash), verification
+    // must either fail or hand back the previous certificate to continue with
+    for forged_previous in ["".to_string(), "ff".repeat(32), c.hash.clone()] {
+        let mut x = c.clone();
+        x.previous_hash = forged_previous.clone();
+        x.hash = x.try_compute_hash().unwrap();
+        match verifier.verify_certificate(&x).await {
+            Ok(None) => panic!("standard certificate with previous_hash {:?} accepted as the root of its chain", forged_previous),
+            Ok(Some(_)) => panic!("standard certificate with forged previous_hash {:?} accepted", forged_previous),
+            Err(_) => {}
+        }
+    }
+    // every certificate of the honest chain verifies and walks to the genesis certificate
+    assert!(verifier.verify_certificate_chain(c.clone()).await.is_ok(), "honest chain rejected");
 }
 
 #[tokio::test]
